@@ -78,7 +78,7 @@ pub const C13_FAULTS: &[&str] = &["connection_future_dropped", "token_dropped_un
 pub const C13_PROBES: &[&str] = &[
     "two_pending_two_releases_between_polls", "fresh_request_barged", "limit_reached", "request_ready_first_poll",
     "request_woken_then_ready", "clone_used", "run_to_completion", "shutdown_future_polled", "shutdown_ready_after_last_token",
-    "clone_shutdown_independent", "connection_task_interleaved", "connection_task_finished", "conn_quiescent_unfinished",
+    "clone_shutdown_independent", "connection_task_interleaved", "connection_task_finished",
 ];
 
 fn run_token(cx: &mut Ctx, token: Token, mode: u32, bufsize: usize, runner_shut: bool) -> Result<(), Violation> {
